@@ -147,3 +147,157 @@ Example C12_exactness_on_memory_and_sources :
   existsb exact_mem_dest_case x86_cases_ok = true /\ existsb exact_unwritten_vec_case x86_cases_ok = true.
 Proof. split; vm_compute; reflexivity. Qed.
 Print Assumptions C12_exactness_on_memory_and_sources.
+
+(* ------------------------------------------------------------------ round 6: non-vacuity on the tables of the working tree *)
+From Verif Require Import RwInfo.CompleteProofs RwInfo.RegWrite RwInfo.RegWriteProofs.
+
+(* C12_features_only_from_record is not an identity: for some snapshot tuple the refinement really removes alternatives (the reported
+   list is strictly shorter than the instruction's record) *)
+Definition feat_refined_case (c : case) : bool :=
+  match query_features x86_tables x86_feat_consts (c_q c) with
+  | Some rep => Nat.ltb (length rep)
+      (length (take_nonzero (ad_feat (nthN (t_addl x86_tables) (ir_addl (nthN (t_inst x86_tables) (q_id (c_q c)) d_inst)) d_addl))))
+  | None => false end.
+Example C12_features_only_from_record_nonvacuous : exists c, In c x86_cases_ok /\ feat_refined_case c = true.
+Proof.
+  destruct (find feat_refined_case x86_cases_ok) as [c|] eqn:E; [|vm_compute in E; discriminate].
+  apply find_some in E. exists c. exact E.
+Qed.
+
+(* C12_implicit_map_spec: records with fixed registers that match a shorter operand list exist (div r/m, cmpxchg ...) *)
+Example C12_implicit_map_spec_nonvacuous : exists ii nops m, In ii (t_inst x86_tables) /\
+  implicit_map x86_tables (nthN (t_rwb x86_tables) (ir_b ii) d_rw) nops = Some m.
+Proof.
+  destruct (find (fun ii => match implicit_map x86_tables (nthN (t_rwb x86_tables) (ir_b ii) d_rw) 1 with Some _ => true | None => false end)
+                 (t_inst x86_tables)) as [ii|] eqn:E; [|vm_compute in E; discriminate].
+  apply find_some in E as [I H]. exists ii, 1%nat.
+  destruct (implicit_map x86_tables (nthN (t_rwb x86_tables) (ir_b ii) d_rw) 1) as [m|]; [|discriminate].
+  exists m. split; [exact I | reflexivity].
+Qed.
+
+(* hypotheses of C12_whole_path_gp_masks / C12_generic_path_vec_masks_any_table hold for entries of the dumped operand table (written, no
+   explicit write mask; with and without the ZExt mark), and reg/mem records with and without the movss/movsd flag exist *)
+Example C12_whole_path_hypotheses_nonvacuous :
+  existsb (fun d => test (clear (or_flags d) fZExt) fW && (or_w d =? 0) && test (or_flags d) fZExt) (t_op x86_tables) = true /\
+  existsb (fun d => test (clear (or_flags d) fZExt) fW && (or_w d =? 0) && negb (test (or_flags d) fZExt)) (t_op x86_tables) = true /\
+  existsb (fun r => test (rm_flags r) rmFlagMovssMovsd) (t_rm x86_tables) = true /\
+  existsb (fun r => negb (test (rm_flags r) rmFlagMovssMovsd)) (t_rm x86_tables) = true.
+Proof. repeat split; vm_compute; reflexivity. Qed.
+Print Assumptions C12_features_only_from_record_nonvacuous.
+Print Assumptions C12_implicit_map_spec_nonvacuous.
+Print Assumptions C12_whole_path_hypotheses_nonvacuous.
+
+
+(* C12_query_rw_info_gp_masks is not vacuous: a snapshot tuple exists that query_rw_info answers through a generic record, whose operand 0
+   is a 32-bit general-purpose register, written, without an explicit write mask in the table, in 64-bit mode - and the theorem's conclusion
+   is instantiated on it (write mask 0x0F, extend mask 0xF0) *)
+Definition gp32_generic_case (c : case) : bool :=
+  let q := c_q c in
+  let ro := select_row x86_tables (nthN (t_inst x86_tables) (q_id q) d_inst) (length (q_ops q)) in
+  let dsc := nthN (t_op x86_tables) (nth (nth 0 (snd ro) 0%nat) (rr_ops (fst ro)) 0) d_op in
+  (selected_category x86_tables q <=? 1) && q_arch64 q &&
+  match q_ops q with OReg 5 _ :: _ => true | _ => false end &&
+  test (clear (or_flags dsc) fZExt) fW && (or_w dsc =? 0) &&
+  negb (test (rm_flags (nthN (t_rm x86_tables) (rr_rm (fst ro)) d_rm)) rmFlagMovssMovsd) &&
+  match query_rw_info x86_tables q with Some _ => true | None => false end.
+Example C12_query_rw_info_gp_masks_nonvacuous : exists c out, In c x86_cases_ok /\ gp32_generic_case c = true /\
+  query_rw_info x86_tables (c_q c) = Some out /\ o_w (nth 0 (i_ops out) op_zero) = 15 /\ o_e (nth 0 (i_ops out) op_zero) = 240.
+Proof.
+  destruct (find gp32_generic_case x86_cases_ok) as [c|] eqn:E; [|vm_compute in E; discriminate].
+  apply find_some in E as [I H]. exists c.
+  pose proof H as H0. unfold gp32_generic_case in H0. cbv zeta in H0.
+  repeat (apply andb_true_iff in H0; destruct H0 as [H0 ?]).
+  destruct (query_rw_info x86_tables (c_q c)) as [out|] eqn:Q; [|discriminate].
+  exists out. split; [exact I|]. split; [exact H|]. split; [reflexivity|].
+  destruct (q_ops (c_q c)) as [|[|rt id| | |] r] eqn:O; try discriminate.
+  assert (rt = 5) by (destruct rt as [|[[[|[]|]|[]|]|[[]|[]|]|]]; try discriminate; reflexivity). subst rt.
+  apply N.leb_le in H0.
+  destruct (query_rw_info_gp_masks x86_tables (c_q c) out 0%nat D32 id Q H0) as [W X].
+  - rewrite O. simpl. apply Nat.lt_0_succ.
+  - rewrite O. reflexivity.
+  - rewrite O. assumption.
+  - rewrite O. apply N.eqb_eq. assumption.
+  - rewrite W, X.
+    + match goal with HA : q_arch64 (c_q c) = true |- _ => rewrite HA end. split; reflexivity.
+    + rewrite O. apply negb_true_iff. assumption.
+Qed.
+Print Assumptions C12_query_rw_info_gp_masks_nonvacuous.
+
+(* C12_memory_never_extended_top_level / C12_one_record_per_operand: tuples with memory operands answered by a special category exist *)
+Definition special_mem_case (c : case) : bool :=
+  (1 <? selected_category x86_tables (c_q c)) && negb (selected_category x86_tables (c_q c) =? 4) &&
+  existsb is_mem (q_ops (c_q c)) && match query_rw_info x86_tables (c_q c) with Some _ => true | None => false end.
+(* shard 0 holds "mov" (crc32 of the mnemonic mod 8), so the search is short *)
+Example C12_top_level_nonvacuous : exists c, In c x86_cases_ok /\ special_mem_case c = true.
+Proof.
+  destruct (find special_mem_case C12_X86Cases_0.x86_cases_0) as [c|] eqn:E; [|vm_compute in E; discriminate].
+  apply find_some in E as [I H]. exists c. split; [|exact H]. unfold x86_cases_ok. apply in_or_app. left. exact I.
+Qed.
+Print Assumptions C12_top_level_nonvacuous.
+
+(* C12_source_operands_returned_as_tabled: both alternatives occur on snapshot tuples answered by the generic path - a source operand returned
+   untouched, and one returned with kRegMem and a memory size added *)
+Definition src_case (regm : bool) (c : case) : bool :=
+  (selected_category x86_tables (c_q c) <=? 1) && Nat.leb 2 (length (q_ops (c_q c))) &&
+  match query_rw_info x86_tables (c_q c) with
+  | Some out => Bool.eqb (test (o_flags (nth 1 (i_ops out) op_zero)) fRegM) regm
+  | None => false end.
+Example C12_source_operands_nonvacuous :
+  (exists c, In c x86_cases_ok /\ src_case true c = true) /\ (exists c, In c x86_cases_ok /\ src_case false c = true).
+Proof.
+  split.
+  - destruct (find (src_case true) x86_cases_ok) as [c|] eqn:E; [|vm_compute in E; discriminate]. apply find_some in E. exists c. exact E.
+  - destruct (find (src_case false) x86_cases_ok) as [c|] eqn:E; [|vm_compute in E; discriminate]. apply find_some in E. exists c. exact E.
+Qed.
+Print Assumptions C12_source_operands_nonvacuous.
+
+(* C12_read_dropped_only_when_unused / C12_merge_masking_whole_path on snapshot tuples (shard 5 holds vpternlogd): a vpternlog tuple whose
+   destination is returned NOT read (equal nibbles, no {k}), and a {k}-merging tuple whose destination is returned read with read mask
+   covering the write mask *)
+Definition ternlog_unread_case (c : case) : bool :=
+  existsb (N.eqb (q_id (c_q c))) (t_ternlog x86_tables) && negb (q_extra_mask (c_q c)) &&
+  match query_rw_info x86_tables (c_q c) with
+  | Some out => negb (test (o_flags (nth 0 (i_ops out) op_zero)) fR) && test (o_flags (nth 0 (i_ops out) op_zero)) fW
+  | None => false end.
+Definition merging_case (c : case) : bool :=
+  q_extra_mask (c_q c) && negb (test (q_options (c_q c)) optZMask) && (selected_category x86_tables (c_q c) <=? 1) &&
+  match query_rw_info x86_tables (c_q c) with
+  | Some out => let o := nth 0 (i_ops out) op_zero in
+                test (o_flags o) fR && (N.land (o_w o) (o_r o) =? o_w o) && negb (o_w o =? 0) && test (o_flags (i_extra out)) fR
+  | None => false end.
+Example C12_ternlog_and_merging_nonvacuous :
+  (exists c, In c x86_cases_ok /\ ternlog_unread_case c = true) /\ (exists c, In c x86_cases_ok /\ merging_case c = true).
+Proof.
+  assert (S5 : forall c, In c C12_X86Cases_5.x86_cases_5 -> In c x86_cases_ok).
+  { intros c I. unfold x86_cases_ok. do 5 (apply in_or_app; right). apply in_or_app. left. exact I. }
+  split.
+  - destruct (find ternlog_unread_case C12_X86Cases_5.x86_cases_5) as [c|] eqn:E; [|vm_compute in E; discriminate].
+    apply find_some in E as [I H]. exists c. split; [apply S5; exact I | exact H].
+  - destruct (find merging_case C12_X86Cases_5.x86_cases_5) as [c|] eqn:E; [|vm_compute in E; discriminate].
+    apply find_some in E as [I H]. exists c. split; [apply S5; exact I | exact H].
+Qed.
+Print Assumptions C12_ternlog_and_merging_nonvacuous.
+
+(* C12_query_rw_info_legacy_sse / C12_query_rw_info_regmem_only_on_registers: a snapshot tuple of a legacy SSE instruction (not VEX/EVEX/XOP) with
+   a vector register destination answered through a generic record exists, and its second operand is returned with kRegMem *)
+Definition legacy_vec_top_case (c : case) : bool :=
+  let q := c_q c in
+  (selected_category x86_tables q <=? 1) && negb (test (ir_cflags (nthN (t_inst x86_tables) (q_id q) d_inst)) (t_vex_flags x86_tables)) &&
+  match q_ops q with OReg 11 _ :: OReg 11 _ :: nil => true | _ => false end &&
+  match query_rw_info x86_tables q with
+  | Some out => test (o_flags (nth 1 (i_ops out) op_zero)) fRegM && negb (test (o_flags (nth 0 (i_ops out) op_zero)) fRegM) &&
+                (N.land (o_e (nth 0 (i_ops out) op_zero)) (not64 (lsb_mask 16)) =? 0)
+  | None => false end.
+Example C12_query_rw_info_legacy_sse_nonvacuous : exists c, In c x86_cases_ok /\ legacy_vec_top_case c = true.
+Proof.
+  destruct (find legacy_vec_top_case C12_X86Cases_0.x86_cases_0) as [c|] eqn:E; [|vm_compute in E; discriminate].
+  apply find_some in E as [I H]. exists c. split; [|exact H]. unfold x86_cases_ok. apply in_or_app. left. exact I.
+Qed.
+Print Assumptions C12_query_rw_info_legacy_sse_nonvacuous.
+
+(* the special categories the per-category theorems of Properties_C12.v speak about (mov, movabs, imul, movh64, punpcklxx, vmaskmov, vmovddup,
+   vmovmskpd/ps, narrowing and widening moves) are all selected by records of the dumped tables *)
+Example C12_special_categories_are_used :
+  forallb (fun c => existsb (fun r => rr_cat r =? c) (t_rwa x86_tables ++ t_rwb x86_tables)) [2; 3; 4; 5; 6; 7; 8; 9; 10; 11; 12; 13; 14; 15; 16] = true.
+Proof. vm_compute. reflexivity. Qed.
+Print Assumptions C12_special_categories_are_used.
